@@ -318,6 +318,392 @@ def directed_registry_search(ck, metas):
                                   sig, ref, 'renumbering', replay_py=f"from chython import smiles; m=smiles({smi!r}); print(m.cumulenes)")
                 break
 
+# ---------------------------------------------------------------------------------------------------------------
+# SMILES stereo marks (coq/model/StereoSmiles.v): the real writer and reader are traced (wrappers installed in this process
+# only) and every mark they emit / interpret is recomputed by the model
+
+class Trace:
+    """records the arguments of MoleculeSmiles._format_atom / __ct_map (writer) and of postprocess_molecule /
+    add_cis_trans_stereo (reader) while active"""
+
+    def __enter__(self):
+        from chython.containers import MoleculeContainer
+        import sys
+        import chython.files.daylight  # noqa
+        rd = sys.modules['chython.files.daylight.smiles']
+        self.cls, self.rd = MoleculeContainer, rd
+        self.fa, self.ct, self.pp, self.act = (MoleculeContainer._format_atom, MoleculeContainer._MoleculeSmiles__ct_map,
+                                               rd.postprocess_molecule, MoleculeContainer.add_cis_trans_stereo)
+        self.atoms, self.ctmaps, self.reads, self.ctcalls = [], [], [], []
+        tr = self
+
+        def format_atom(self, n, adjacency, **kw):
+            out = tr.fa(self, n, adjacency, **kw)
+            if self._atoms[n].stereo is not None and kw.get('stereo', True):
+                tr.atoms.append((self, n, {k: list(v) for k, v in adjacency.items() if isinstance(k, int)}, next(iter(adjacency)), out))
+            return out
+
+        def ct_map(self, adjacency):
+            out = tr.ct(self, adjacency)
+            tr.ctmaps.append((self, [k for k in adjacency if isinstance(k, int)], dict(out)))
+            return out
+
+        def postprocess(molecule, data, **kw):
+            snap = {'mapping': dict(enumerate(data['mapping'])) if isinstance(data['mapping'], (list, tuple)) else dict(data['mapping']), 'stereo_atoms': dict(data['stereo_atoms']),
+                    'order': {k: list(v) for k, v in data['order'].items()},
+                    'stereo_bonds': {k: dict(v) for k, v in data['stereo_bonds'].items()}}
+            n0 = len(tr.ctcalls)
+            r = tr.pp(molecule, data, **kw)
+            tr.reads.append((molecule, snap, tr.ctcalls[n0:], kw))
+            return r
+
+        def add_ct(self, n, m, n1, n2, mark, **kw):
+            try:
+                r = tr.act(self, n, m, n1, n2, mark, **kw)
+            except Exception as e:
+                tr.ctcalls.append((n, m, n1, n2, mark, type(e).__name__))
+                raise
+            tr.ctcalls.append((n, m, n1, n2, mark, None))
+            return r
+
+        MoleculeContainer._format_atom = format_atom
+        MoleculeContainer._MoleculeSmiles__ct_map = ct_map
+        MoleculeContainer.add_cis_trans_stereo = add_ct
+        rd.postprocess_molecule = postprocess
+        return self
+
+    def __exit__(self, *a):
+        self.cls._format_atom = self.fa
+        self.cls._MoleculeSmiles__ct_map = self.ct
+        self.cls.add_cis_trans_stereo = self.act
+        self.rd.postprocess_molecule = self.pp
+
+
+def marks_inputs(ck):
+    """SMILES whose stereo marks are traced: every first-atom / ring-closure / explicit-H / allene / diene family of the search
+    plus corpus molecules"""
+    out = ['[C@H](F)(Cl)Br', 'F[C@H](Cl)Br', 'F[C@](Cl)(Br)I', '[C@](F)(Cl)(Br)I', '[H][C@](F)(Cl)Br', 'F[C@]([H])(Cl)Br', 'F[C@](Cl)(Br)[H]',
+           'O.[C@H](F)(Cl)Br', '[C@H](F)(Cl)Br.[C@@H](N)(O)C', 'N[C@@H](C)C(=O)O', 'C[C@@H]1CC[C@H](C)CC1', 'C[C@]12CC[C@H](C1)C2(C)C',
+           '[C@@]1(F)(Cl)CCO1', '[C@H]1(F)CCO1', 'C1C[C@H]1C', 'O[C@]12CCC[C@]1(N)CC2', 'OC[C@H]1O[C@@H](O)[C@H](O)[C@@H](O)[C@@H]1O',
+           'F/C=C/Cl', 'F/C=C\\Cl', 'C(/F)(\\Cl)=C(/Br)I', 'F/C=C/C=C/Cl', 'F/C=C/C=C\\C=C/Cl', 'C/C=C/C(/C)=C/C', 'F/C(Cl)=C(/Br)I', 'C(\\F)([H])=C/Cl',
+           '[H]/C(F)=C(/[H])Cl', '[H]/C(C)=C(\\Cl)[H]', 'F/C=C=C=C/Cl', '[H]/C(F)=C=C=C(/[H])Cl', 'C1CCCCCC/C=C/1', 'F/C=C/1CCC/C1=C/Cl',
+           'CC(F)=[C@]=C(Cl)Br', 'CC(F)=[C@@]=C(Cl)Br', 'FC=[C@@]=CCl', '[H]C(F)=[C@]=C([H])Cl', '[H]C(F)=[C@@]=C(Cl)[H]', 'CC(F)=[C@]=C([H])Cl',
+           'C(F)(C)=[C@]=C(Cl)Br', 'C(=[C@]=C(Cl)Br)(F)C', 'FC(Cl)=C=[C@]=C=C(Br)I', 'C[C@H](N)/C=C/[C@@H](O)C',
+           'N1[C@H](C)CC1', 'C[S@](=O)c1ccccc1', 'C[C@H]1CC[C@@H](/C=C/F)CC1']
+    out += corpus.sample(corpus.stereo_smiles(), 100 if ck.tier == 'quick' else 1000, ck.seed, 'c12marks')
+    return out
+
+
+MARKS_EXTRA = """
+Definition ish (l : list Z) (x : Z) : bool := zmem x l.
+Definition wth (hs order adj : list Z) (s hasH first : bool) (r : pyres bool) : bool :=
+  pyres_eqb Bool.eqb (write_th (ish hs) order adj s hasH first) r.
+Definition rth (hs order adj : list Z) (mark hasH np : bool) (r : pyres bool) : bool :=
+  pyres_eqb Bool.eqb (read_th (ish hs) order adj mark hasH np) r.
+Definition wal (hs : list Z) (e : env4s) (a1 a2 : list Z) (s : bool) (r : pyres bool) : bool :=
+  pyres_eqb Bool.eqb (write_al (ish hs) e a1 a2 s) r.
+Definition ral (hs : list Z) (e : env4s) (a1 a2 : list Z) (mark hasH np : bool) (r : pyres bool) : bool :=
+  pyres_eqb Bool.eqb (read_al (ish hs) e a1 a2 mark hasH np) r.
+Definition rct (hs : list Z) (e : env4s) (f : bool) (n1 n2 : Z) (s1 s2 : bool) (r : pyres bool) : bool :=
+  pyres_eqb Bool.eqb (read_ct (ish hs) e f n1 n2 s1 s2) r.
+Definition wct (hs : list Z) (e : env4s) (kf : bool) (v on : Z) (base s mo mk : bool) : bool :=
+  match write_ct (ish hs) e kf v on base s with Ok (a, c) => Bool.eqb a mo && Bool.eqb c mk | Err _ => false end.
+"""
+
+
+def corr_smiles_marks(ck):
+    """every '@'/'@@' the real writer emits and every sign the real reader stores for a stereo atom, every (n, m, n1, n2, mark)
+    the reader passes to add_cis_trans_stereo with the sign it stores, and every pair of direction marks in the writer's ct_map
+    == coq/model/StereoSmiles.v on the same neighbour orders"""
+    from chython import smiles
+    cases, meta = [], []
+
+    def hs_of(m):
+        return lst([k for k, a in m._atoms.items() if a.atomic_number == 1], zraw)
+
+    def add(case, info, key):
+        cases.append(case)
+        meta.append(info)
+        ck.case(key)
+
+    with Trace() as tr:
+        for smi in marks_inputs(ck):
+            try:
+                m = smiles(smi)
+            except Exception:
+                continue
+            texts = []
+            for k in range(4):
+                try:
+                    texts.append(format(m, 'r') if k else str(m))
+                except Exception:
+                    pass
+            for sp in texts:
+                try:
+                    smiles(sp)
+                except Exception:
+                    pass
+    # ---- writer: atoms
+    for m, n, adj, first_key, out in tr.atoms:
+        bit = 'true' if '@' in out and '@@' not in out else 'false'
+        s = m._atoms[n].stereo
+        if n in m._stereo_allenes_terminals:
+            t1, t2 = m._stereo_allenes_terminals[n]
+            add(f'wal {hs_of(m)} {envterm(m.stereogenic_allenes[n])} {lst(adj[t1], zraw)} {lst(adj[t2], zraw)} {b(s)} (Ok {bit})',
+                ('write-allene', str(m), n, adj[t1], adj[t2], out), ('wal', n, tuple(adj[t1]), tuple(adj[t2]), s, out))
+            ck.count('marks: writer allene')
+        elif n in m.stereogenic_tetrahedrons:
+            hasH = bool(m._atoms[n].implicit_hydrogens)
+            add(f'wth {hs_of(m)} {lst(m.stereogenic_tetrahedrons[n], zraw)} {lst(adj[n], zraw)} {b(s)} {b(hasH)} {b(first_key == n)} (Ok {bit})',
+                ('write-th', str(m), n, adj[n], hasH, first_key == n, out), ('wth', tuple(m.stereogenic_tetrahedrons[n]), tuple(adj[n]), s, hasH, first_key == n, out))
+            ck.count('marks: writer tetrahedron' + (' first atom with H' if hasH and first_key == n else ''))
+    # ---- writer: ct_map
+    for m, keys, ctm in tr.ctmaps:
+        pos = {k: i for i, k in enumerate(keys)}
+        for (a, c), e in m.stereogenic_cis_trans.items():
+            i, j = m._stereo_cis_trans_centers[a]
+            S = m._bonds[i][j].stereo
+            if S is None:
+                continue
+            xa = [x for x in m._bonds[a] if (a, x) in ctm and int(m._bonds[a][x]) == 1]
+            xc = [y for y in m._bonds[c] if (c, y) in ctm and int(m._bonds[c][y]) == 1]
+            for x in xa:
+                for y in xc:
+                    add(f'rct {hs_of(m)} {envterm(e)} true {zraw(x)} {zraw(y)} {b(ctm[(a, x)])} {b(ctm[(c, y)])} (Ok {b(S)})',
+                        ('ct_map-pair', str(m), (a, c), (x, y), ctm[(a, x)], ctm[(c, y)], S), ('ctp', a, c, x, y, ctm[(a, x)], ctm[(c, y)], S))
+                    ck.count('marks: writer ct_map pairs')
+            if a in ctm and c in ctm and a in pos and c in pos:
+                o, k = (a, c) if pos[a] < pos[c] else (c, a)
+                on, v = ctm[o], ctm[k]
+                if (o, on) in ctm and (k, v) in ctm:
+                    add(f'wct {hs_of(m)} {envterm(e)} {b(k == a)} {zraw(v)} {zraw(on)} {b(ctm[(o, on)])} {b(S)} {b(ctm[(o, on)])} {b(ctm[(k, v)])}',
+                        ('ct_map-rule', str(m), (o, k), (on, v)), ('wct', o, k, on, v, ctm[(o, on)], ctm[(k, v)], S))
+                    ck.count('marks: writer ct_map rule')
+    # ---- reader
+    for m, snap, ctcalls, kw in tr.reads:
+        if kw.get('ignore_stereo'):
+            continue
+        mp = snap['mapping']
+        order = {mp[i]: [mp[x] for x in xs if x is not None] for i, xs in snap['order'].items()}
+        for i, s in snap['stereo_atoms'].items():
+            n = mp[i]
+            actual = m._atoms[n].stereo
+            if actual is None:
+                ck.count('marks: reader label not kept')
+                continue
+            hasH = bool(m._atoms[n].implicit_hydrogens)
+            np_ = all(x > i for x in snap['order'][i])
+            if n in m.stereogenic_tetrahedrons:
+                add(f'rth {hs_of(m)} {lst(m.stereogenic_tetrahedrons[n], zraw)} {lst(order.get(n, []), zraw)} {b(s)} {b(hasH)} {b(np_)} (Ok {b(actual)})',
+                    ('read-th', str(m), n, order.get(n), s, hasH, np_, actual), ('rth', tuple(m.stereogenic_tetrahedrons[n]), tuple(order.get(n, [])), s, hasH, np_, actual))
+                ck.count('marks: reader tetrahedron' + (' inverted' if hasH and np_ else ''))
+            elif n in m.stereogenic_allenes:
+                t1, t2 = m._stereo_allenes_terminals[n]
+                add(f'ral {hs_of(m)} {envterm(m.stereogenic_allenes[n])} {lst(order[t1], zraw)} {lst(order[t2], zraw)} {b(s)} {b(hasH)} {b(np_)} (Ok {b(actual)})',
+                    ('read-allene', str(m), n, order[t1], order[t2], s, actual), ('ral', n, tuple(order[t1]), tuple(order[t2]), s, actual))
+                ck.count('marks: reader allene')
+        sb = {mp[i]: {mp[x]: v for x, v in xs.items()} for i, xs in snap['stereo_bonds'].items()}
+        done = set()
+        for n, c, n1, n2, mark, exc in ctcalls:
+            if exc is not None or (n, c) in done:
+                continue
+            done.add((n, c))
+            i, j = m._stereo_cis_trans_centers[n]
+            actual = m._bonds[i][j].stereo
+            if actual is None or n1 not in sb.get(n, {}) or n2 not in sb.get(c, {}):
+                continue
+            e = m.stereogenic_cis_trans.get((n, c)) or m.stereogenic_cis_trans.get((c, n))
+            if (sb[n][n1] == sb[c][n2]) != mark:
+                ck.unchecked('reader passes another mark than s1 == s2 to add_cis_trans_stereo', str((n, c, n1, n2, mark, sb[n], sb[c])))
+            add(f'rct {hs_of(m)} {envterm(e)} {b((n, c) in m.stereogenic_cis_trans)} {zraw(n1)} {zraw(n2)} {b(sb[n][n1])} {b(sb[c][n2])} (Ok {b(actual)})',
+                ('read-ct', str(m), (n, c), (n1, n2), sb[n][n1], sb[c][n2], actual), ('rct', n, c, n1, n2, sb[n][n1], sb[c][n2], actual))
+            ck.count('marks: reader cis/trans')
+    ok, failing, log = coqcases.run_cases('c12marks', 'Stereo StereoSmiles', cases, extra=MARKS_EXTRA, shard=600)
+    ck.oblige('correspondence: SMILES stereo marks of the real writer / reader == Coq model (traced calls)', ok and not failing,
+              'correspondence', log or str([meta[i] for i in failing[:5]]))
+    ck.extra['marks_cases'] = len(cases)
+    if cases:
+        ck.sample({'model_call': cases[0], 'meta': repr(meta[0])})
+    if not ok or failing:
+        directed_marks_search(ck, [meta[i] for i in failing[:30]])
+        ck.unchecked('correspondence StereoSmiles model vs SMILES stereo writer / reader', log[-1500:], [repr(meta[i]) for i in failing[:20]])
+    return ok and not failing
+
+
+def directed_marks_search(ck, metas):
+    """on a broken marks correspondence: the round-trip oracle (random-order output must read back as an equal molecule) on the
+    molecules of the disagreeing cases"""
+    from chython import smiles
+    seen = set()
+    for info in metas:
+        smi = info[1]
+        if not isinstance(smi, str) or smi in seen:
+            continue
+        seen.add(smi)
+        try:
+            m = smiles(smi)
+        except Exception:
+            continue
+        for k in range(12):
+            sp = format(m, 'r')
+            try:
+                back = smiles(sp)
+            except Exception as e:
+                ck.counterexample(f'marks-reread-raises:{smi}', f'random-order output cannot be read back: {type(e).__name__}', {'smiles': smi, 'respelled': sp},
+                                  repr(e), 'a molecule', 'reader on writer output')
+                break
+            if back != m:
+                ck.counterexample(f'marks-roundtrip:{smi}', 'random-order SMILES reads back as a different molecule (stereo marks)', {'smiles': smi, 'respelled': sp},
+                                  str(back), str(m), 'chython reader on chython writer output',
+                                  replay_py=f"from chython import smiles; m=smiles({smi!r}); print(m, smiles({sp!r}))")
+                break
+
+# ---------------------------------------------------------------------------------------------------------------
+# fix_stereo (coq/model/StereoFix.v): collection through the registries model + the retry loop; chirality detection is an input
+# of the model and is supplied as a table computed with the real code for every subset of the saved labels
+
+def centre_term(c):
+    return {'T': lambda: f'(CT {zraw(c[1])})', 'A': lambda: f'(CA {zraw(c[1])})', 'C': lambda: f'(CC {zraw(c[1])} {zraw(c[2])})'}[c[0]]()
+
+
+def labels_term(labels):
+    return lst([f'({centre_term(c)}, {b(s)})' for c, s in labels])
+
+
+def labels_of(m):
+    """the labels a molecule carries, keyed like the model: ('T', n) / ('A', n) / ('C', first, last); labels that fix_stereo must
+    drop outright are keyed ('X', ...)"""
+    out = {}
+    for n, a in m._atoms.items():
+        if a.stereo is not None:
+            if n in m.stereogenic_tetrahedrons:
+                out[('T', n)] = a.stereo
+            elif n in m.stereogenic_allenes:
+                out[('A', n)] = a.stereo
+            else:
+                out[('X', n)] = a.stereo
+    for n, k, bd in m.bonds():
+        if bd.stereo is not None:
+            ta = m._stereo_cis_trans_terminals.get(n)
+            out[('C', *ta) if ta else ('X', n, k)] = bd.stereo
+    return out
+
+
+def set_labels(m, labels):
+    for _, a in m._atoms.items():
+        a._stereo = None
+    for *_, bd in m.bonds():
+        bd._stereo = None
+    for c, s in labels.items():
+        if c[0] in ('T', 'A') or (c[0] == 'X' and len(c) == 2):
+            m._atoms[c[1]]._stereo = s
+        elif c[0] == 'C':
+            i, j = m._stereo_cis_trans_centers[c[1]]
+            m._bonds[i][j]._stereo = s
+        else:
+            m._bonds[c[1]][c[2]]._stereo = s
+    m.flush_cache()
+
+
+def chiral_given(base, labels):
+    m = base.copy()
+    set_labels(m, labels)
+    return [('T', n) for n in m.chiral_tetrahedrons] + [('A', n) for n in m.chiral_allenes] + [('C', a, c) for a, c in m.chiral_cis_trans]
+
+
+FIX_TEMPLATES = ['CC(O)C(F)C(O)C', 'CC(O)C(O)C(O)C', 'OC(C(O)=O)C(O)C(O)=O', 'CC=CC(O)C=CC', 'CC=CC(C=CC)=C(F)Cl', 'CC(F)=C=C(C)F', 'CC1CCC(C)CC1',
+                 'OC1C(O)C(O)C1O', 'CC(C)C(C)(F)Cl', 'FC(Cl)C(Br)C(F)Cl', 'CC=CC(C=CC)=C=C(F)Cl', 'CC=C(C)C(O)C(C)=CC', 'CC1CC12CC2C', 'CC1CC(C)C1',
+                 'CC=C=C=CC', 'CC(O)C=CC(O)C', 'CC(O)C(C(O)C)=C(F)Cl', 'OC1CC(O)CC(O)C1', 'CC(N)C(=O)O', 'FC=CC=CF', 'CC(F)C(F)(C(C)F)C(F)(Cl)Br',
+                 'CC1OC(C)C1F', 'CC(F)C1CC(C(C)F)C1', 'C1CCCC1=C1CCC(C)C1', 'CC(O)C(O)(C(O)C)C(O)C', '[H]C(F)(Cl)C(O)C', 'CC(O)C([H])(F)C(O)C']
+
+
+def corr_fix_stereo(ck):
+    """fix_stereo of the real code == model: the saved labels are collected through the registries model, the retry loop of the
+    model is driven by the chirality table of the real code (every subset of the saved labels); compared: the set of surviving
+    labels with their signs.  States carry labels on chiral, pseudo-asymmetric, non-chiral and non-stereogenic centres."""
+    import coqmol
+    from chython import smiles
+    rng = random.Random(f'{ck.seed}:fix')
+    cases, meta = [], []
+    nstates = 6 if ck.tier == 'quick' else 24
+    for smi in FIX_TEMPLATES:
+        base = smiles(smi)
+        cents = [('T', n) for n in base.stereogenic_tetrahedrons] + [('A', n) for n in base.stereogenic_allenes] + \
+                [('C', a, c) for a, c in base.stereogenic_cis_trans]
+        junk = [('X', n) for n in base.tetrahedrons if n not in base.stereogenic_tetrahedrons][:2]
+        if not cents:
+            continue
+        for k in range(nstates):
+            chosen = cents if len(cents) <= 4 and k == 0 else rng.sample(cents, min(len(cents), rng.randint(1, 4)))
+            labels = {c: rng.choice([True, False]) for c in chosen}
+            if junk and k % 2:
+                labels[rng.choice(junk)] = True
+            state = base.copy()
+            set_labels(state, labels)
+            valid = [(c, s) for c, s in labels.items() if c[0] != 'X']
+            tab = []
+            for r in range(len(valid) + 1):
+                for sub in itertools.combinations(valid, r):
+                    tab.append((list(sub), chiral_given(base, dict(sub))))
+            # is the chirality of the real code monotone in the labels present (hypothesis of C12_fix_stereo_spec)?
+            for sub, ch in tab:
+                for sup, ch2 in tab:
+                    if len(sup) > len(sub) and set(sub) <= set(sup):
+                        lost = [c for c in ch if c not in ch2 and c not in dict(sup)]
+                        ck.count('fix_stereo: chirality table monotone' if not lost else 'fix_stereo: chirality table NOT monotone (spec theorem does not apply)')
+            after = state.copy()
+            after.fix_stereo()
+            exp = labels_of(after)
+            if any(c[0] == 'X' for c in exp):
+                ck.counterexample(f'fix-stereo-keeps-junk:{smi}', 'fix_stereo keeps a label on an atom / bond that is in no stereo registry',
+                                  {'smiles': smi, 'labels': repr(labels)}, repr(exp), 'label dropped', 'registries of the real code')
+                continue
+            g = coqmol.mol_term(state)
+            tabt = lst([f'({labels_term(sub)}, {lst([centre_term(c) for c in ch])})' for sub, ch in tab])
+            cases.append(f'fix_ok {g} {tabt} {labels_term(list(exp.items()))}')
+            meta.append((smi, sorted(labels.items()), sorted(exp.items())))
+            ck.case(('fix', smi, tuple(sorted(labels.items()))), nontrivial=len(exp) < len(labels) or len(valid) > 1)
+            ck.count(f'fix_stereo: {len(labels) - len(exp)} of {len(labels)} labels dropped')
+            # how many rounds the real loop needs (pseudo-asymmetry = more than one)
+            first = [c for c, s in valid if c in set(chiral_given(base, {}))]
+            if len(first) < len(exp):
+                ck.count('fix_stereo: states needing more than one round (pseudo-asymmetric)')
+    extra = '''
+Definition fix_ok (g : mol) (tab : list (list label * list centre)) (expected : list label) : bool :=
+  match fix_stereo_real g tab with Ok l => same_labels l expected | Err _ => false end.
+'''
+    ok, failing, log = coqcases.run_cases('c12fix', 'Graph Stereo StereoRegistry StereoFix', cases, extra=extra, shard=40)
+    ck.oblige('correspondence: fix_stereo (collection through the registries + retry loop) == Coq model, chirality table from the real code',
+              ok and not failing, 'correspondence', log or str([meta[i] for i in failing[:5]]))
+    ck.extra['fix_stereo_cases'] = len(cases)
+    if not ok or failing:
+        directed_fix_search(ck, [meta[i] for i in failing[:20]])
+        ck.unchecked('correspondence StereoFix model vs MoleculeStereo.fix_stereo', log[-1500:], [repr(meta[i]) for i in failing[:20]])
+    return ok and not failing
+
+
+def directed_fix_search(ck, metas):
+    """on a broken fix_stereo correspondence: the specification on the real code -- after fix_stereo no dropped label is chiral
+    (it would have been restored) and fix_stereo is idempotent"""
+    from chython import smiles
+    for smi, labels, exp in metas:
+        base = smiles(smi)
+        state = base.copy()
+        set_labels(state, dict(labels))
+        after = state.copy()
+        after.fix_stereo()
+        kept = labels_of(after)
+        chiral_now = set(chiral_given(base, kept))
+        lost = [c for c, s in labels if c not in kept and c in chiral_now]
+        again = after.copy()
+        again.fix_stereo()
+        if lost:
+            ck.counterexample(f'fix-stereo-drops-chiral:{smi}', 'fix_stereo dropped the label of a centre that is chiral given the labels it kept',
+                              {'smiles': smi, 'labels': repr(labels)}, repr(lost), 'label restored', 'chiral_* of the real code after fix_stereo')
+        elif labels_of(again) != kept:
+            ck.counterexample(f'fix-stereo-not-idempotent:{smi}', 'a second fix_stereo changes the labels', {'smiles': smi, 'labels': repr(labels)},
+                              repr(labels_of(again)), repr(kept), 'idempotence')
+
 
 def search(ck, budget):
     """property-level oracles on the real code, independent of the model"""
@@ -640,9 +1026,11 @@ def run(ck):
     ck.extra['rule'] = ('correspondence: every (molecule, env arrangement incl. malformed, sign) of 5+7+4 seed molecules, random integer points for the '
                         'geometric functions; non-trivial = the implementation returned a sign (not an exception). search: corpus stereo molecules '
                         'respelled by chython and re-read by RDKit; non-trivial = has at least one stereo element')
-    proved = common.standard_proof_steps(ck, translators=['stereo', 'elements'], extra_targets=['model/StereoRegistry.vo'])
+    proved = common.standard_proof_steps(ck, translators=['stereo', 'elements'], extra_targets=['model/StereoRegistry.vo', 'model/StereoSmiles.vo', 'model/StereoFix.vo'])
     tied = corr_translate(ck)
     tied = corr_registries(ck) and tied
+    tied = corr_smiles_marks(ck) and tied
+    tied = corr_fix_stereo(ck) and tied
     search(ck, 150 if ck.tier == 'quick' else 1500)
     ck.extra['proved'] = proved
     ck.extra['tied'] = tied
